@@ -138,7 +138,7 @@ class AtomicEngine(Engine):
     level = "fault_enumeration"
     tiers = {
         "quick": {"runs": 4000, "wall": 150},
-        "thorough": {"runs": 150000, "wall": 1800},
+        "thorough": {"runs": 300000, "wall": 1800},
     }
     components_real = [
         "rope.base.project.Project",
